@@ -140,6 +140,26 @@ def main():
         i = in_cfg(recs, lambda c: c["priorType"] == "logcosh", lambda r: r["e"] == "Step", 0)
         recs[i]["curvNow"] = [v + 4000 for v in recs[i]["curvNow"]]
         return i
+    def eff_scaled_bit(recs):   # efficiency scale clause: the scaled copy's new image is not the shifted bit pattern
+        i = nth(recs, lambda r: r["e"] == "Run" and r["kind"] == "scaled", 0)
+        j = i + nth(recs[i:], step, 0)
+        k = [q for q, b in enumerate(recs[j]["b1"]) if b != 0][0]
+        recs[j]["b1"][k] += 1; recs[j]["b2"][k] += 1
+        return j
+    def eff_scaled_zeroed(recs):   # ... or a voxel that bins see was set to 0 before the update (tiny sensitivity taken for none)
+        i = nth(recs, lambda r: r["e"] == "Run" and r["kind"] == "scaled", 0)
+        j = i + nth(recs[i:], step, 0)
+        k = [q for q, b in enumerate(recs[j]["be"]) if b != 0][0]
+        recs[j]["be"][k] = 0
+        return j
+    def seen_voxel_zeroed(recs):   # first sub-iteration of a fresh run: a voxel with sensitivity > 0 does not keep its start value
+        i = nth(recs, lambda r: r["e"] == "Run" and r["kind"] == "fresh", 0)
+        j = i + nth(recs[i:], step, 0)
+        k = [q for q, b in enumerate(recs[j]["be"]) if b != 0][0]
+        recs[j]["be"][k] = 0
+        return j
+    cases += [("exact", "efficiency-scaled copy off by one bit", eff_scaled_bit), ("exact", "efficiency-scaled copy: seen voxel zeroed before the update", eff_scaled_zeroed),
+              ("runs", "fresh start: seen voxel zeroed before the update (bits)", seen_voxel_zeroed)]
     cases += [("runs", "update file off by 40 units", upd_off), ("exact", "update file off by 2^-18", upd_exact),
               ("runs", "refusal not given", refuse_accepted), ("runs", "zero not raised by 'enforce initial positivity'", pos_kept_zero),
               ("runs", "denominator-file run differs in one bit", denfile_differs), ("runs", "denominator-file run asked for the Hessian", denfile_hessian),
